@@ -33,6 +33,7 @@ Not modelled in this stage (never generated): commands, holds, several flows, fl
 suicide triggers, xtriggers, clock expiry, queue limits, future-offset runahead extension,
 stop points, Cylc-7 compatibility mode.  Core Lean only.
 -/
+import CylcModel.Generated.ExpFlags
 namespace CylcModel.Sched3Exp
 
 /-! ### Static instance graph -/
@@ -628,6 +629,8 @@ def processMessage (g : Graph) : Nat → State → Int → String → Flag → N
     match lookup s p n with
     | none => (s, false)
     | some (x, tr) =>
+      -- (repaired code only, see `ExpFlags.jobMsgExpires`: the `expired` message is the scheduler's own)
+      if msg == "expired" && flag != .internal && !ExpFlags.jobMsgExpires then (s, false) else
       -- _process_message_check (a transient object skips the checks)
       if !tr && flag == .received && sn != x.submitNum then (s, false) else
       -- a waiting task with a retry lined up ignores (late) messages
